@@ -520,6 +520,13 @@ def _next_search(c: Term):
     while c[0] == "not":
         neg = not neg
         c = c[1]
+    sentinel_next = None
+    for x_, y_ in (((c[1], c[2]), (c[2], c[1])) if (c[0] in ("is", "eq") and len(c) == 3) else ()):
+        if is_term(x_) and is_term(y_) and x_[0] == "call" and x_[1] == "next" and len(x_[2]) == 2 and x_[2][1] == y_ and y_[0] == "global" and not x_[3]:
+            # `next(search, SENTINEL) is SENTINEL` with a module-level sentinel object: nothing was found
+            sentinel_next = x_
+            c = ("isnone", ("call", "next", (x_[2][0], ("const", None)), ()))
+            break
     if c[0] in ("truth", "nonempty") and is_term(c[1]) and c[1][0] == "accum" and c[1][1] == "concat" and c[1][2] == ("listlit", ()) and len(c[1]) > 5 \
             and c[1][3][0] == "listlit" and len(c[1][3][1]) == 1 and c[1][4]:
         # a list that receives the hit(s) of a search loop (`hits.append(x); break`), tested for emptiness and read at [0]
@@ -550,6 +557,8 @@ def _next_search(c: Term):
         seq.extend(cs)
     fresh = {v: ("var", str(v[1]) + "'") for gg in g[3] for v in _pat_vars(gg[0])}
     seq = [subst(x, fresh) for x in seq]
+    if sentinel_next is not None:
+        nterms = list(nterms) + [sentinel_next]
     return seq, neg, nterms, subst(g[2], fresh)
 
 
@@ -902,11 +911,22 @@ def _witness_nonempty_axioms(g, wit: list, sa: SetAlg) -> list:
 
 
 def evaluate(model: Model, qname: str, mk_ev: Callable[[], Evaluator], types: dict[str, Any], self_type: Any = None, func: Func | None = None,
-             recurse_as=(), self_term: Term | None = None):
+             recurse_as=(), self_term: Term | None = None, rename: dict | None = None):
     f = func if func is not None else model.func(qname)
     ev = mk_ev()
     ev.recurse_as = set(recurse_as)
     args = {}
+    if rename:
+        for own, theirs in rename.items():
+            v = ("var", theirs)
+            if theirs in types and not (isinstance(types[theirs], tuple) and len(types[theirs]) == 2 and types[theirs][0] == "const"):
+                ev.set_type(v, types[theirs])
+                args[own] = v
+            elif theirs in types:
+                args[own] = types[theirs]
+            else:
+                args[own] = v
+        types = {}
     for k, t in types.items():
         if isinstance(t, tuple) and len(t) == 2 and t[0] == "const":
             args[k] = t  # partial evaluation: this parameter is fixed to a constant
@@ -927,8 +947,19 @@ def compare_with_reference(model: Model, impl_q: str, ref_q: str, types: dict[st
                            alias: dict | None = None, impl_self_type: Any = None, impl_self_term: Term | None = None):
     """Return (impl_func, verdict, detail, sample) with verdict in PROVEN / REFUTED / UNKNOWN."""
     _MODEL[0] = model
+    rename = None
+    try:
+        fi_ = impl_func if impl_func is not None else model.func(impl_q)
+        fr_ = ref_func if ref_func is not None else model.func(ref_q)
+        pi_ = [p_ for p_ in fi_.params if not (fi_.cls is not None and not fi_.is_staticmethod and p_ == fi_.params[0])]
+        pr_ = [p_ for p_ in fr_.params if p_ not in ("self", "cls")]
+        if pi_ != pr_ and len(pi_) == len(pr_) and all(x == y or (x not in types and x not in pr_) for x, y in zip(pi_, pr_)):
+            # a (private) routine whose parameters are merely NAMED differently from the definition's: matched by position
+            rename = dict(zip(pi_, pr_))
+    except Exception:  # noqa: BLE001
+        rename = None
     f, ev_i, pi = evaluate(model, impl_q, mk_ev, {k: v for k, v in types.items() if k != "self"} if (impl_self_type or impl_self_term) else types,
-                           func=impl_func, self_type=impl_self_type, self_term=impl_self_term)
+                           func=impl_func, self_type=impl_self_type, self_term=impl_self_term, rename=rename)
     _, ev_r, pr = evaluate(model, ref_q, mk_ev, ref_types or types, func=ref_func, recurse_as=(f.qname,))
     import ast as _ast
 
